@@ -40,7 +40,7 @@ def impl_canonical(rows, plugins=False):
     except errors.CutplaceError as error:
         tag = core.classify_exception(error)
         loc = error.location
-        if loc is not None:
+        if loc is not None and hasattr(loc, "line"):
             return "%s@%d" % (tag, loc.line)
         m = re.search(r"\(R(\d+)C\d+\)", str(error))
         return "%s@%s" % (tag, str(int(m.group(1)) - 1) if m else "n")
@@ -236,6 +236,7 @@ def defects(rnd, rows, info):
         yield "bad-item-delimiter", inserted(1, ["D", "Item delimiter", "ab"]), 1
         yield "zero-item-delimiter", inserted(1, ["D", "Item delimiter", "0"]), 1
         yield "bad-quoting", inserted(1, ["D", "Quoting", "some"]), 1
+        yield "bad-skip-initial-space", inserted(1, ["D", "Skip initial space", "maybe"]), 1
     if fmt in ("delimited", "fixed"):
         yield "bad-line-delimiter", inserted(1, ["D", "Line delimiter", "newline"]), 1
         yield "bad-decimal-separator", inserted(1, ["D", "Decimal separator", ";"]), 1
